@@ -89,6 +89,36 @@ M = [
   "        let local = std::mem::ManuallyDrop::new(unsafe { Box::from_raw(get_co_local(&co)) });\n        let name = local.get_co().name();\n", "C15", 6000),
  ("M34 sleep: the timeout result is not consumed after a sleep", "src/sleep.rs",
   "    // consume the timeout error\n    get_co_para();", "    // consume the timeout error", "C15", 30000),
+ ("M40 mpsc queue: pop reports empty on a reserved but unwritten slot", "may_queue/src/mpsc.rs",
+  "                if pop_index >= self.push_index() {\n                    return None;\n                } else {\n                    head.get(id)\n                }",
+  "                if pop_index >= self.push_index() || true {\n                    return None;\n                } else {\n                    head.get(id)\n                }", "C03", 40000),
+ ("M41 mpsc queue: ready flag published before the value is written", "may_queue/src/mpsc.rs",
+  "            #[cfg(may_verif)]\n            crate::verif::point();\n            data.value.get().write(MaybeUninit::new(v));\n\n            std::sync::atomic::fence(Ordering::Release);\n            // mark the data ready\n            data.ready.store(1, Ordering::Release);",
+  "            data.ready.store(1, Ordering::Release);\n            #[cfg(may_verif)]\n            crate::verif::point();\n            data.value.get().write(MaybeUninit::new(v));", "C03", 40000),
+ ("M42 spsc queue: tail index published before the slot is written", "may_queue/src/spsc.rs",
+  "        // store the data\n        tail.set(push_index, v);\n\n        // alloc new block node if the tail is full\n        let new_index = push_index.wrapping_add(1);",
+  "        let new_index = push_index.wrapping_add(1);\n        if new_index & BLOCK_MASK != 0 {\n            self.tail.index.store(new_index, Ordering::Release);\n        }\n        // store the data\n        tail.set(push_index, v);\n", "C03", 40000),
+ ("M43 mpsc queue: old block freed at once (no delayed drop)", "may_queue/src/mpsc.rs",
+  "        self.head.index.store(pop_index + 1, Ordering::Relaxed);\n\n        if id == BLOCK_MASK {\n            // we need to delay the drop of the block to let the push's `wait_next_block` return\n            let old_block = unsafe { &mut *(self.old_block.get()) };\n            old_block.replace(unsafe { Box::from_raw(head) });\n\n            let next_block = head.wait_next_block();",
+  "        self.head.index.store(pop_index + 1, Ordering::Relaxed);\n\n        if id == BLOCK_MASK {\n            let next_block = head.wait_next_block();\n            drop(unsafe { Box::from_raw(head as *mut BlockNode<T>) });", "C03", 100000),
+ ("M44 spmc: steal_into also re-queues the returned task", "may_queue/src/spmc.rs",
+  "        let ret = v.pop();\n        for t in v {", "        let ret = v.pop();\n        for t in v.into_iter().skip(0) {", "C04", 100),
+ ("M45 spmc: ABA wait loop removed in bulk_pop", "may_queue/src/spmc.rs",
+  "                        while end > self.tail.index.load(Ordering::Acquire) {", "                        while false && end > self.tail.index.load(Ordering::Acquire) {", "C04", 200000),
+ ("M46 spmc: ABA wait loop removed in pop", "may_queue/src/spmc.rs",
+  "                        while pop_index >= self.tail.index.load(Ordering::Acquire) {", "                        while false && pop_index >= self.tail.index.load(Ordering::Acquire) {", "C04", 200000),
+ ("M47 spmc: head not restored after over-claiming the last slot (bulk_pop)", "may_queue/src/spmc.rs",
+  "                        if pop_index >= push_index {\n                            // recover the old head, and return None\n                            self.head.0.store(head, Ordering::Release);\n                            return SmallVec::new();",
+  "                        if pop_index >= push_index {\n                            // recover the old head, and return None\n                            return SmallVec::new();", "C04", 100000),
+ ("M48 spmc: bulk_pop marks one slot too few as read", "may_queue/src/spmc.rs",
+  "                    if block.mark_slots_read(end - pop_index) {", "                    if block.mark_slots_read(end - pop_index - 1) {", "C04", 100000),
+ ("M49 list: remove acts although next is null", "may_queue/src/mpsc_list_v1.rs",
+  "            if !next.is_null() {\n                // clear the link bit", "            if !next.is_null() || true {\n                // clear the link bit", "C19", 40000),
+ ("M50 list: pop does not reset prev of the new tail", "may_queue/src/mpsc_list_v1.rs",
+  "            (*next).prev = ptr::null_mut();\n            // move the tail to next\n            *self.tail.get() = next;\n\n            assert!((*tail).value.is_none());\n            assert!((*next).value.is_some());\n            // we tack the next value, this is why use option to host the value\n            let ret = (*next).value.take().unwrap();\n            (*tail).refs -= 1;\n            if (*tail).refs == 0 {\n                // release the node only when the ref count becomes 0\n                let _: Box<Node<T>> = Box::from_raw(tail);\n            }\n\n            Some(ret)\n        }\n    }\n}\n\nimpl<T> Default",
+  "            // move the tail to next\n            *self.tail.get() = next;\n\n            assert!((*tail).value.is_none());\n            assert!((*next).value.is_some());\n            // we tack the next value, this is why use option to host the value\n            let ret = (*next).value.take().unwrap();\n            (*tail).refs -= 1;\n            if (*tail).refs == 0 {\n                // release the node only when the ref count becomes 0\n                let _: Box<Node<T>> = Box::from_raw(tail);\n            }\n\n            Some(ret)\n        }\n    }\n}\n\nimpl<T> Default", "C19", 40000),
+ ("M51 list: push reports is_head for every entry", "may_queue/src/mpsc_list_v1.rs",
+  "            let is_head = std::ptr::eq(tail, prev);", "            let is_head = std::ptr::eq(tail, prev) || true;", "C19", 20000),
  ("M23 atomic_dur: truncating milliseconds again", "src/sync/atomic_dur.rs",
   "        let ms = d.as_nanos().div_ceil(1_000_000);", "        let ms = d.as_nanos() / 1_000_000;", "C08", 6000),
 ]
